@@ -141,7 +141,7 @@ impl Property for C05 {
         vec!["containment tolerance 1e-8 on the raw distance (documented for contains()) plus 1e-12 relative for the rounding of a.w".into(), "a plain Feasible mark carries no obligation (it can only cause less pruning)".into()]
     }
     fn cases(&self, tier: Tier) -> usize {
-        tier.pick(20000, 120_000)
+        tier.pick(60000, 1_000_000)
     }
     fn strategy(&self, tier: Tier) -> BoxedStrategy<Case> {
         let w = OpWeights { apply: 2, compose_unpruned: 4, compose_pruned: 4, eliminate: 6, reduce: 3, arith_tree: 3, arith_aff: 1 };
